@@ -37,9 +37,19 @@ def classify(anc, fnpath):
     return "other"
 
 
+def _agg_of(b, defs, local):
+    """Closure aggregates assigned to `local` (def paths)."""
+    out = []
+    for d in defs.defs.get(local, []):
+        if d[2] == "assign" and d[3]["rv"]["k"] == "agg":
+            out.append(d[3]["rv"].get("def") or d[3]["rv"].get("kind") or "")
+    return out
+
+
 def rule_l1(F):
     r = RuleResult("C02.L1", "layout walks agree: enum-variant walks start with the 1-byte tag, record walks do not; fields are added front to back", floor=10)
     n_enum = n_rec = 0
+    closures = [cb for cb in F.all_bodies() if cb.mir and cb.def_kind == "Closure" and any(mir.callee_def(t).endswith("LayoutBuilder::add") for _, t in mir.calls(cb))]
     for b in F.all_bodies():
         if not b.hir or not b.mir or b.file.endswith("runtime/layout.rs") or "tests" in b.file:
             continue
@@ -74,26 +84,35 @@ def rule_l1(F):
                 for d in ds:
                     if d[2] == "assign" and d[3]["rv"]["k"] == "use" and mir.is_place_op(d[3]["rv"]["o"]) and d[3]["rv"]["o"][1][0] in holders:
                         holders.add(l)
-            mine = [(bi, t) for bi, t in adds if mir.is_place_op(t["args"][0]) and base_local(b, defs, t["args"][0][1]) in holders]
+            mine = [(b, defs, bi, t) for bi, t in adds if mir.is_place_op(t["args"][0]) and base_local(b, defs, t["args"][0][1]) in holders]
+            # adds made inside closures of this function on the captured builder (e.g. fields.iter().find_map(|..| layout.add(..)))
+            if len(news) == 1 and b.def_kind != "Closure":
+                for cb in closures:
+                    if cb.path.startswith(b.path + "::{closure"):
+                        cdefs = None
+                        for cbi, ct in mir.calls(cb):
+                            if mir.callee_def(ct).endswith("LayoutBuilder::add") and mir.is_place_op(ct["args"][0]):
+                                cdefs = cdefs or mir.Defs(cb)
+                                if mir.origin(cb, cdefs, ct["args"][0][1])[0] == "arg1":
+                                    mine.append((cb, cdefs, cbi, ct))
             if not mine:
                 continue
-            first = [x for x in mine if all(x[0] in dom[y[0]] for y in mine)]
-            seeded = False
-            if first:
-                a1 = first[0][1]["args"][1]
-                ch = mir.value_chain(b, defs, a1[1][0]) if mir.is_place_op(a1) else []
-                for c in ch:
-                    t2 = b.blocks[c[0]]["term"]
-                    if c[2].endswith("Layout::of") and (t2["f"].get("gargs") or [None])[0] == "u8":
-                        seeded = True
-            tags = 0
-            for (bi, t) in mine:
+            main = [x for x in mine if x[0] is b] or mine
+            fdom = dom if main[0][0] is b else mir.dominators(main[0][0])
+            first = [x for x in main if x[0] is main[0][0] and all(x[2] in fdom[y[2]] for y in main if y[0] is x[0])]
+
+            def is_tag(x):
+                xb, xdefs, _bi, t = x
                 a1 = t["args"][1]
-                ch = mir.value_chain(b, defs, a1[1][0]) if mir.is_place_op(a1) else []
+                ch = mir.value_chain(xb, xdefs, a1[1][0]) if mir.is_place_op(a1) else []
                 for c in ch:
-                    t2 = b.blocks[c[0]]["term"]
+                    t2 = xb.blocks[c[0]]["term"]
                     if c[2].endswith("Layout::of") and (t2["f"].get("gargs") or [None])[0] == "u8":
-                        tags += 1
+                        return True
+                return False
+
+            seeded = bool(first) and is_tag(first[0])
+            tags = sum(1 for x in mine if is_tag(x))
             key = "%s line-free %s #%d" % (b.path, kind, news.index((nbi, nt)))
             r.inst(key, {"fn": b.path, "line": nt["line"], "walk": kind, "add_sites": len(mine), "starts_with_u8_tag": seeded, "tag_adds": tags})
             if kind == "enum":
@@ -106,15 +125,23 @@ def rule_l1(F):
                 if tags != 0:
                     r.bad(b.path, "record walk #%d tag" % news.index((nbi, nt)), relfile(b.file), nt["line"], "a walk over record fields must not add a tag byte")
             # forward traversal of the fields feeding add
-            for (bi, t) in mine:
+            for (xb, xdefs, bi, t) in mine:
                 a1 = t["args"][1]
                 if not mir.is_place_op(a1):
                     continue
-                ch = mir.value_chain(b, defs, a1[1][0])
+                ch = mir.value_chain(xb, xdefs, a1[1][0])
+                if xb is not b:
+                    # the closure is driven by an iterator adaptor of the enclosing function: its receiver chain must not reverse
+                    for obi, ot in mir.calls(b):
+                        if any(mir.is_place_op(a) and xb.path in str(_agg_of(b, defs, a[1][0])) for a in ot["args"][1:]):
+                            ich = mir.value_chain(b, defs, ot["args"][0][1][0]) if mir.is_place_op(ot["args"][0]) else []
+                            bad = [hir.last(x[2]) for x in ich if hir.last(x[2]) in REVERSERS] + ([hir.last(mir.callee_def(ot))] if hir.last(mir.callee_def(ot)) in REVERSERS else [])
+                            if bad:
+                                r.bad(b.path, "walk #%d order" % news.index((nbi, nt)), relfile(b.file), t["line"], "fields are added to the layout through %s: offsets no longer follow declaration order" % bad[0])
                 for c in ch:
                     if hir.last(c[2]) == "next":
-                        t2 = b.blocks[c[0]]["term"]
-                        ich = mir.value_chain(b, defs, t2["args"][0][1][0]) if mir.is_place_op(t2["args"][0]) else []
+                        t2 = xb.blocks[c[0]]["term"]
+                        ich = mir.value_chain(xb, xdefs, t2["args"][0][1][0]) if mir.is_place_op(t2["args"][0]) else []
                         bad = [hir.last(x[2]) for x in ich if hir.last(x[2]) in REVERSERS]
                         if bad:
                             r.bad(b.path, "walk #%d order" % news.index((nbi, nt)), relfile(b.file), t["line"], "fields are added to the layout through %s: offsets no longer follow declaration order" % bad[0])
